@@ -80,7 +80,7 @@ type Scn struct {
 	NPeers   int      `json:"n_peers"`
 	Silent   []string `json:"silent"`
 	TxMode   string   `json:"tx_mode"`
-	Phase    string   `json:"phase"` // idle | midsync | reorg | nopeers
+	Phase    string   `json:"phase"` // idle | midsync | reorg | nopeers | notstarted
 	DelayMs  int      `json:"delay_ms"`
 	Calls    []string `json:"calls"`
 	Persist  bool     `json:"persist"`
@@ -283,12 +283,19 @@ func runScn(s *Scn, work string) (fails []c.ImplFailure) {
 		fail("cannot create client: "+err.Error(), "setup")
 		return
 	}
-	if err := cl.Start(); err != nil {
-		fail("cannot start client: "+err.Error(), "setup")
-		return
+	// "notstarted": the service was created but never started (the state a
+	// caller is in when Start returned an error before starting anything);
+	// Stop must still return (finding F40).
+	started := s.Phase != "notstarted"
+	if started {
+		if err := cl.Start(); err != nil {
+			fail("cannot start client: "+err.Error(), "setup")
+			return
+		}
 	}
 	cur := base
 	switch s.Phase {
+	case "notstarted":
 	case "midsync":
 		time.Sleep(time.Duration(s.DelayMs) * time.Millisecond)
 	default:
@@ -305,6 +312,8 @@ func runScn(s *Scn, work string) (fails []c.ImplFailure) {
 		}
 	}
 	switch s.Phase {
+	case "notstarted":
+		// no peer handler runs, so no API call can be made
 	case "reorg":
 		launch()
 		cur = base.Fork(base.Tip()-1-r.Intn(5), 8, int64(s.ID), 0.3)
@@ -331,7 +340,9 @@ func runScn(s *Scn, work string) (fails []c.ImplFailure) {
 			o.Calls = append(o.Calls, CallObs{Kind: k.kind})
 		}
 	}
-	o.PeersAtStop = len(cl.CS.Peers())
+	if started {
+		o.PeersAtStop = len(cl.CS.Peers())
+	}
 
 	ret, took, serr := cl.StopWithin(stopGiveUp)
 	o.StopReturned, o.StopMs = ret, took.Milliseconds()
@@ -385,6 +396,9 @@ func runScn(s *Scn, work string) (fails []c.ImplFailure) {
 // hangTag names the root cause of a Stop hang when the scenario contains the
 // ingredients of a known one.
 func hangTag(s *Scn, o *Obs) string {
+	if s.Phase == "notstarted" {
+		return "F40-stop-without-start"
+	}
 	for i, k := range o.Calls {
 		if k.Kind == "getutxo" && !k.Pre {
 			_ = i
@@ -447,6 +461,10 @@ func gen(r *rand.Rand, id int, seed, tip int64) Scn {
 		s.Calls = append(s.Calls, k)
 	}
 	sort.Strings(s.Calls)
+	if seen["rescan"] && r.Intn(4) == 0 {
+		// rescan on a chain that never becomes current
+		s.Silent = []string{"getheaders"}
+	}
 	s.Persist = r.Intn(3) == 0
 	return s
 }
@@ -474,13 +492,22 @@ func corpus(seed, tip int64) []Scn {
 	long.ChainLen = 1100
 	long.DelayMs = 400
 	cs = append(cs, long)
+	// F40: Stop on a service that was never started
+	cs = append(cs, mk(10, "notstarted", []string{}), mk(11, "notstarted", []string{}))
+	cs[11].Persist = true
+	// A rescan started while the chain is not current (peers silent on
+	// getheaders: the client stays at genesis) parks in waitForBlocks on its
+	// block subscription; Stop closes the subscription and the rescan has to
+	// come back (seeded change C17 round 2 no. 1).
+	cs = append(cs, mk(12, "idle", []string{"getheaders"}, "rescan"),
+		mk(13, "midsync", []string{"getheaders"}, "peers", "rescan"))
 	return cs
 }
 
 // ---------------------------------------------------------------------
 // Coq terms.
 
-var phaseCode = map[string]int64{"idle": 0, "midsync": 1, "reorg": 2, "nopeers": 3}
+var phaseCode = map[string]int64{"idle": 0, "midsync": 1, "reorg": 2, "nopeers": 3, "notstarted": 4}
 var kindCode = map[string]int64{"getblock": 0, "getcfilter": 1, "getutxo": 2, "rescan": 3, "sendtx": 4, "peers": 5}
 var classCode = map[string]int64{"ok": 0, "shutdown": 1, "cancel": 2, "timeout": 3, "other": 4, "hung": 5}
 var silentBit = map[string]int64{"getdata": 1, "getcfilters": 2, "inv": 4, "getcfheaders": 8, "getheaders": 16, "getcfcheckpt": 32}
